@@ -57,6 +57,9 @@ type Spec struct {
 	// DupSub: after A subscribed, Subscribe is called once more on A's very
 	// transport (rejected: already subscribed); everything else as usual.
 	DupSub bool      `json:"dup_sub,omitempty"`
+	// Mode "resub": Periods subscription periods on ONE subscriber transport
+	// object (resub.go).
+	Periods int `json:"periods,omitempty"`
 	Mode   string    `json:"mode,omitempty"`
 	Subs   []SubSpec `json:"subs,omitempty"`
 }
@@ -400,6 +403,9 @@ func shapeOf(s *Spec) string {
 	}
 	if s.Mode == "prompt" && s.Probe == "" {
 		fl += "+prompt"
+	}
+	if s.Mode == "resub" && s.Probe == "" {
+		fl += fmt.Sprintf("+resub%d", s.Periods)
 	}
 	op := s.Op
 	if (s.Mode == "shared" || s.Mode == "concurrent" || s.Mode == "nested") && s.Probe == "" {
@@ -843,7 +849,7 @@ func (q *seqRun) publishTo(x *subscriber, kind string, phase int) (*msg, error) 
 }
 
 func (q *seqRun) multiTopic() bool {
-	return q.spec.Mode == "shared" || q.spec.Mode == "concurrent" || q.spec.Mode == "nested"
+	return q.spec.Mode == "shared" || q.spec.Mode == "concurrent" || q.spec.Mode == "nested" || q.spec.Mode == "resub"
 }
 
 // followup publishes one more valid message x must get.
@@ -856,6 +862,24 @@ func (q *seqRun) followup(x *subscriber, phase int) (*msg, error) {
 
 // role of message m for subscriber x.
 func (q *seqRun) role(x *subscriber, m *msg) string {
+	if q.spec.Mode == "resub" && q.spec.Probe == "" {
+		switch {
+		case m.Kind == "malformed" && m.Sub == "wrong-struct":
+			return "ignore"
+		case m.Kind == "malformed":
+			return "forbidden:malformed-delivered:" + m.Sub
+		case m.Target == nil:
+			return "ignore"
+		case m.Target.idx > x.idx:
+			return "forbidden:delivered-after-unsubscribe"
+		case m.Target.idx < x.idx:
+			// every period is settled before its Unsubscribe: this is a second delivery
+			return "forbidden:message-of-an-earlier-subscription-period-delivered-again"
+		case m.Kind == "followup":
+			return "optional"
+		}
+		return "required"
+	}
 	if q.multiTopic() && q.spec.Probe == "" {
 		switch {
 		case m.Target != x && q.spec.Mode == "nested":
@@ -1373,6 +1397,8 @@ func runSeq(b *bus, s *Spec) *Result {
 		q.runPrompt()
 	} else if s.Mode == "concurrent" && s.Probe == "" {
 		q.runConcurrent()
+	} else if s.Mode == "resub" && s.Probe == "" {
+		q.runResub()
 	} else {
 		q.run()
 	}
